@@ -41,3 +41,35 @@ def c07(tier, seed, only):
     chk.require("C07", n_ent > 0, "no path answered ENTAILMENT")
     chk.extra_cov["entailment_paths"] = n_ent
     return chk.finish({"prop": batch})
+
+
+HEUR_ASSUMPTIONS = [
+    "the state the heuristic starts from is arbitrary (every cell of the three stacks is an unconstrained symbol of its dtype) except: the chosen domain has min < max, values within +-2^30, the stack pointer is one of the listed levels and leaves room for the push",
+    "min_cost: the cost table covers the values of the domain and selectable costs are > 0 (ties allowed)",
+    "stack height, number of domains (2) and propagators (2) are concrete; the watcher table of backtrack() is one of three fixed tables",
+]
+
+
+@check("C09")
+def c09(tier, seed, only):
+    from nusym import h_heur
+    from nusym.runner import load_known
+
+    chk = Check("C09", tier, seed)
+    known = [k for k in load_known("C09") if k.get("harness") == "heur"]
+    batch = []
+    tables = (0, 1) if tier == "quick" else (0, 1, 2)
+    for hname in h_heur.HEUR_NAMES:
+        if only and hname not in only:
+            continue
+        for table in tables:
+            kw = dict(hname=hname, height=5 if tier == "quick" else 6, tops=(0, 1, 2) if tier == "quick" else (0, 1, 2, 3), table=table, W=4 if tier == "quick" else 5, select=["C09"], known=known)
+            r = chk.explore("heur", kw, f"{hname}/table={table}")
+            pushed = [k for k in r.acc.counts if k.startswith("pushed:")]
+            chk.require(hname, bool(pushed), "the heuristic never returned")
+        chk.functions.add(f"nucs.heuristics.{hname}_dom_heuristic.{hname}_dom_heuristic")
+    chk.explore("backtrack0", dict(), "backtrack at level 0")
+    chk.functions.update(["nucs.solvers.choice_points.cp_put", "nucs.solvers.choice_points.backtrack", "nucs.heuristics.value_dom_heuristic.value_dom_heuristic", "nucs.propagators.propagators.add_propagators"])
+    chk.bounds = dict(stack_height=5, start_levels=[0, 1, 2], domains=2, propagators=2, domain="[a,b], a<b, unbounded (+-2^30); min_cost: within [0,W)")
+    chk.assumptions.extend(HEUR_ASSUMPTIONS)
+    return chk.finish({})
